@@ -155,7 +155,7 @@ func ValidDoc(t *rapid.T, o DocOpt) []byte {
 }
 
 // Mutation names, recorded in cases for the class histogram.
-var MutationKinds = []string{"delete-structural", "dup-structural", "replace-structural", "truncate", "append-junk", "near-literal", "bad-number", "insert-byte", "swap-bytes", "delete-byte", "control-in-string", "badutf8-in-string", "stray-in-space"}
+var MutationKinds = []string{"delete-structural", "dup-structural", "replace-structural", "truncate", "append-junk", "near-literal", "bad-number", "insert-byte", "swap-bytes", "delete-byte", "control-in-string", "badutf8-in-string", "stray-in-space", "extra-comma"}
 
 var junkTails = []string{"x", "]", "}", ",", "1", "null", `""`, "{}", " x", "\n]", ":", "\x00", "/", "//", "/**/", "\xff", "0", "e", "."}
 
@@ -251,6 +251,24 @@ func Mutate(t *rapid.T, doc []byte) ([]byte, string) {
 		p := at(len(out) + 1)
 		c := []byte(`{}[],:"\x-0.e` + "\x00\xff\n ")[rapid.IntRange(0, 16).Draw(t, "ins")]
 		out = append(out[:p], append([]byte{c}, out[p:]...)...)
+	case "extra-comma":
+		// a comma (with optional white space) right before a closing bracket or right after an opening one:
+		// [1,2,] {"a":1 , } [,1] {,"a":1}; in an empty container: [,] {,}
+		var br []int
+		for _, p := range sp {
+			if c := doc[p]; c == '{' || c == '[' || c == '}' || c == ']' {
+				br = append(br, p)
+			}
+		}
+		if len(br) == 0 {
+			return append(out, ','), kind
+		}
+		p := br[at(len(br))]
+		ins := []string{",", ", ", " ,", "\n,\t", ",    "}[rapid.IntRange(0, 4).Draw(t, "commaform")]
+		if doc[p] == '{' || doc[p] == '[' {
+			p++
+		}
+		out = append(out[:p], append([]byte(ins), out[p:]...)...)
 	case "stray-in-space":
 		// a run of white space between two tokens with one arbitrary byte inside it (inlined space skippers
 		// treat the first bytes of a run differently from the rest)
